@@ -367,8 +367,95 @@ pub fn gen_case<R: Rng>(rng: &mut R, real: bool) -> Case {
     }
 }
 
+/// The tool's own pipeline: with `--max-step-size s` no parameter of the written structure can
+/// be further from the starting structure than the number of proposals times s times half its
+/// range; with s = 0 the written structure IS the starting structure.
+fn cli_leg(ctx: &Ctx, st: &mut Stats) {
+    use crate::observe::cli;
+    let exe = match ctx.args.cli.clone() {
+        Some(e) => e,
+        None => {
+            st.count("cli_leg_skipped(no binary)");
+            return;
+        }
+    };
+    let runs: Vec<(&str, Vec<&str>, bool)> = vec![
+        ("p1", vec!["polygon", "--sides", "4"], false),
+        ("p2", vec!["trimer"], true),
+        ("p2gg", vec!["polygon", "--sides", "3"], false),
+        ("p2mg", vec!["circle"], false),
+        ("p1g1", vec!["polygon", "--sides", "5"], false),
+        ("p2mm", vec!["circle"], true),
+    ];
+    for (i, (group, shape, lj)) in runs.iter().enumerate() {
+        for (j, s) in ["0", "1e-9", "1e-6"].iter().enumerate() {
+            st.eval();
+            let steps = [20u64, 50, 10][j];
+            let steps_s = steps.to_string();
+            let mut pre: Vec<&str> = vec!["--replications", "2", "--steps", &steps_s, "--max-step-size", s];
+            if *lj {
+                pre.push("-p");
+                pre.push("LJ");
+            }
+            let mut pos = vec![*group];
+            pos.extend(shape.iter());
+            let out = cli::run(&exe, &format!("c19-{}-{}-{}", ctx.seed, i, j), &pre, &pos, &[("RAYON_NUM_THREADS", "2".to_string())], 300);
+            if out.status != Some(0) {
+                st.count("cli_runs_that_failed(not a C19 event)");
+                continue;
+            }
+            let js = match out.json.as_ref().and_then(|t| crate::oracle::xjson::parse(t).ok()) {
+                Some(j) => j,
+                None => continue,
+            };
+            // the starting structure, as the library builds it for this request
+            let start = (|| -> Option<Value> {
+                let wg = lib_group(group).ok()?;
+                let spec = match shape[0] {
+                    "polygon" => ShapeSpec::Polygon { sides: shape[2].parse().ok()? },
+                    "circle" => ShapeSpec::Circle,
+                    _ => ShapeSpec::Trimer { radius: 0.637556, angle: 120., distance: 1. },
+                };
+                if *lj {
+                    serde_json::to_value(&PotentialState::from_group(spec.lj()?, &wg).ok()?).ok()
+                } else if let Some(l) = spec.line() {
+                    serde_json::to_value(&PackedState::from_group(l, &wg).ok()?).ok()
+                } else {
+                    serde_json::to_value(&PackedState::from_group(spec.mol()?, &wg).ok()?).ok()
+                }
+            })();
+            let start = match start {
+                Some(s) => s,
+                None => continue,
+            };
+            let sval: f64 = s.parse().unwrap_or(0.);
+            // proposals of the three stages: 1000 + steps + steps (at most)
+            let n = (1000 + 2 * steps + 10) as f64;
+            st.nontrivial(hash_str(&format!("{}{:?}{}", group, shape, s)));
+            st.count("cli_structures_checked_against_their_start");
+            for (path, range) in [(vec!["cell", "length"], None), (vec!["cell", "ratio"], Some(1.)), (vec!["cell", "angle"], Some(PI / 3.)), (vec!["occupied_sites", "0", "x"], Some(1.)), (vec!["occupied_sites", "0", "y"], Some(1.)), (vec!["occupied_sites", "0", "angle"], Some(2. * PI))].iter() {
+                let a = crate::oracle::xjson::get_f64(&start, path);
+                let b = crate::oracle::xjson::get_f64(&js, path);
+                if let (Some(a), Some(b)) = (a, b) {
+                    let r = range.unwrap_or(a);
+                    let bound = n * sval * r / 2. * 1.001;
+                    if !((b - a).abs() <= bound) {
+                        st.violation(Violation {
+                            kind: "c19.cli".into(),
+                            signature: "cli:structure-further-from-its-start-than-the-steps-allow".into(),
+                            case: json!({"cli": true}),
+                            detail: json!({"argv": out.argv, "parameter": path, "start": a, "written": b, "allowed_distance": bound, "max_step_size": s}),
+                        });
+                        break;
+                    }
+                }
+            }
+        }
+    }
+}
+
 pub fn run(ctx: &Ctx) {
-    ctx.set_rule("every proposal of optimise_state is measured against every possible current state (trace monitor): its single changed parameter may move by at most max_step_size x half the parameter's range (ranges: the chosen bounds of scripted states; for real hard/LJ states the ranges declared by the property at stage start). Rejection histories are forced by scripts (0/50/75/99/100% rejection per loop, reject runs, alternation, undefined scores), 1..50 inner loops and loops of 1-4 proposals (the step adaptation acts between loops), steps 1e-8..1, k = 1..24 parameters, all temperatures. Plus freeze-and-release runs on a lean state (no trace monitor, moves measured against the last accepted vector): every loop rejected for as many loops as it takes a step that shrinks by inner/(inner+1) per rejected loop to fall by 2-8 decades, then accepting loops, then both again - loops of 1..300 proposals, and loops of more than 10^4 proposals (about 1e9 proposals per run); the same with a convergence threshold set and the run kept just short of it (1-5 stalled loops, then one improvement, again and again). Non-trivial = runs with >= 3 inner loops; distinct by case");
+    ctx.set_rule("every proposal of optimise_state is measured against every possible current state (trace monitor): its single changed parameter may move by at most max_step_size x half the parameter's range (ranges: the chosen bounds of scripted states; for real hard/LJ states the ranges declared by the property at stage start). Rejection histories are forced by scripts (0/50/75/99/100% rejection per loop, reject runs, alternation, undefined scores), 1..50 inner loops and loops of 1-4 proposals (the step adaptation acts between loops), steps 1e-8..1, k = 1..24 parameters, all temperatures. Plus freeze-and-release runs on a lean state (no trace monitor, moves measured against the last accepted vector): every loop rejected for as many loops as it takes a step that shrinks by inner/(inner+1) per rejected loop to fall by 2-8 decades, then accepting loops, then both again - loops of 1..300 proposals, and loops of more than 10^4 proposals (about 1e9 proposals per run); the same with a convergence threshold set and the run kept just short of it (1-5 stalled loops, then one improvement, again and again). Plus the real binary: with --max-step-size 0, 1e-9, 1e-6 the written structure may be no further from the group's starting structure than the proposals of its three stages allow (bit-identical for 0). Non-trivial = runs with >= 3 inner loops; distinct by case");
     let n_s = ctx.tier.pick(70u64, 3_500u64);
     let n_r = ctx.tier.pick(6u64, 250u64);
     let prev = std::panic::take_hook();
@@ -416,6 +503,9 @@ pub fn run(ctx: &Ctx) {
         }
     });
     std::panic::set_hook(prev);
+    let mut st = Stats::new();
+    cli_leg(ctx, &mut st);
+    ctx.merge(st);
     ctx.set_min_nontrivial(200);
 }
 
@@ -423,7 +513,9 @@ pub fn replay(ctx: &Ctx, case: &Value) {
     let prev = std::panic::take_hook();
     std::panic::set_hook(Box::new(|_| {}));
     let mut st = Stats::new();
-    if let Ok(c) = serde_json::from_value::<Case>(case.clone()) {
+    if case.get("cli").is_some() {
+        cli_leg(ctx, &mut st);
+    } else if let Ok(c) = serde_json::from_value::<Case>(case.clone()) {
         check(&c, &mut st);
     }
     std::panic::set_hook(prev);
